@@ -739,14 +739,17 @@ func cmdC08(args []string) int {
 		}
 		hg := newHayGen(r.fork(uint64(i)+1000), c.re)
 		pr := r.fork(uint64(i) + 500000)
-		for j := 0; j < nhay+4; j++ {
+		long := hg.longHays()
+		for j := 0; j < nhay+4+len(long); j++ {
 			var h []byte
 			if j < nhay {
 				h = hg.next(j)
-			} else {
+			} else if j < nhay+4 {
 				h = []byte(c08Texts[(i*4+j)%len(c08Texts)])
+			} else {
+				h = long[j-nhay-4] // > 4 KiB ASCII, then a late non-ASCII rune
 			}
-			if len(h) > 400 {
+			if len(h) > 400 && j < nhay+4 {
 				h = h[:400]
 			}
 			key := pat + "\x00" + string(h)
